@@ -47,6 +47,10 @@ func TestE2E(t *testing.T) {
 	prof := profileByName(os.Getenv("VERIF_PROFILE"))
 	g := newG(seed, 0x9e3779b97f4a7c15)
 	var cases, impl []string
+	for _, c := range corpusCases() {
+		cases = append(cases, c.Encode())
+		impl = append(impl, runCase(t, c, runOpts{})...)
+	}
 	for i := 0; i < n; i++ {
 		c := g.genCase(prof, fmt.Sprintf("%s-%d-%d", prof.Name, seed, i))
 		canonCase(c)
